@@ -150,13 +150,20 @@ def run_case(job):
         ucfg = None
         y = "input:\n  auto_exclude_directories_without_cmake: false\n"
         ylist = "  exclude_filters:\n" + "".join(f"    - '{p}'\n" for p in rp)
-        if source == "cli":
-            for p in rp:
-                argv += ["-e", p]
-        elif source == "user":
-            ucfg = "input:\n" + ylist
+        if source.startswith("split"):
+            # the patterns come from different sources in one run: the first from one, the rest from another
+            a, b = {"split-cli-sfile": ("cli", "sfile"), "split-sfile-user": ("sfile", "user"),
+                    "split-user-cli": ("user", "cli")}[source]
+            parts = {a: rp[:1], b: rp[1:]}
+        else:
+            parts = {source: rp}
+        for p in parts.get("cli", []):
+            argv += ["-e", p]
+        if parts.get("user"):
+            ucfg = "input:\n  exclude_filters:\n" + "".join(f"    - '{p}'\n" for p in parts["user"])
         with open(box.path("work", "s.yaml"), "w") as f:
-            f.write(y + (ylist if source == "sfile" else ""))
+            f.write(y + ("  exclude_filters:\n" + "".join(f"    - '{p}'\n" for p in parts["sfile"])
+                         if parts.get("sfile") else ""))
         argv += ["-s", "s.yaml"]
         schedule = fsbox.Schedule(mode=sched[0], table=dict(sched[1]), root=box.path("work", "in")) if sched else None
         r = box.run(argv + ["in"], schedule=schedule, user_config=ucfg)
@@ -218,6 +225,12 @@ def run(ctx):
         jobs.append((FILES, DIRS, ps, src, False, ("reversed", ())))
         for s2 in sources:
             jobs.append((FILES[:3], DIRS[:3], ps, s2, True, ("reversed", ())))
+    # two patterns supplied by two different sources in one run (the source must be irrelevant)
+    two = [["k.cmake", "x1/"], ["e*.cmake", "y"], ["ABSF:e2.cmake", "x*/"], ["*.cmake", "**/deep/"], ["m.cmake", "e1.cmake"]]
+    for ps in two:
+        for src in ("split-cli-sfile", "split-sfile-user", "split-user-cli"):
+            jobs.append((FILES, DIRS, ps, src, True, None))
+            jobs.append((FILES, DIRS, ps, src, True, ("reversed", ())))
     ctx.cov["bounds"] = {"pattern_forms": forms, "pattern_sets": len(psets), "max_siblings": hi, "runs": len(jobs),
                          "files": FILES, "dirs": DIRS}
     ctx.sweep(run_case, jobs, space="patterns x trees x listing permutations", selftest=5)
